@@ -1,4 +1,4 @@
 (* Extraction of the C46 model (run from the output directory; not part of `make`). *)
 From SE Require Import C46.LdeModel.
 Require Import ExtrOcamlBasic.
-Extraction "lde_model.ml" lde_from homogeneous_lde hilbert_box is_minimal_sol mat_wfb.
+Extraction "lde_model.ml" lde_from homogeneous_lde hilbert_box is_minimal_sol mat_wfb guard_basis_empty.
